@@ -24,26 +24,26 @@ pub(crate) struct DespawnAccessTracker
     reactor_handle: Option<ReactorHandle>,
 
     /// Reaction information cached for when the reaction system actually runs.
-    prepared: Vec<(SystemCommand, Entity, ReactorHandle)>,
+    prepared: Vec<(u64, SystemCommand, Entity, ReactorHandle)>,
 }
 
 impl DespawnAccessTracker
 {
     /// Caches metadata for an entity reaction.
-    pub(crate) fn prepare(&mut self, reactor: SystemCommand, source: Entity, handle: ReactorHandle)
+    pub(crate) fn prepare(&mut self, ticket: u64, reactor: SystemCommand, source: Entity, handle: ReactorHandle)
     {
-        self.prepared.push((reactor, source, handle));
+        self.prepared.push((ticket, reactor, source, handle));
     }
 
     /// Sets metadata for the current entity reaction.
-    pub(crate) fn start(&mut self, reactor: SystemCommand)
+    pub(crate) fn start(&mut self, reactor: SystemCommand, ticket: u64)
     {
-        let Some(pos) = self.prepared.iter().position(|(s, _, _)| *s == reactor) else {
+        let Some(pos) = self.prepared.iter().position(|(t, s, _, _)| *t == ticket && *s == reactor) else {
             tracing::error!("prepared despawn entity reaction is missing {:?}", reactor);
             debug_assert!(false);
             return;
         };
-        let (_, source, handle) = self.prepared.remove(pos);
+        let (_, _, source, handle) = self.prepared.remove(pos);
 
         self.currently_reacting = true;
         self.reaction_source = source;
